@@ -385,7 +385,7 @@ def i_STLR(i, fmap):
         data = i.t
     if i.excl:
         fmap[i.s] = cst(1, 32)
-    fmap[address] = fmap(data)
+    fmap[__mem(i.n, i.datasize)] = fmap(data[0 : i.datasize])
 
 
 i_STLRB = i_STLR
